@@ -111,7 +111,7 @@ def check_pair(part, db, qt, u, v, c, full=True):
         slope = conv(qt, u, v, 1.0)
         if slope > 0 and 1e-60 < slope < 1e60:
             for ne in (2, -2, 3, -3, -1, 2, -3):
-                for x in (1.0, 2.5, -2.5):
+                for x in (1.0, 2.5, -2.5, 0.25):
                     n += 1
                     e = x * slope**ne
                     try:
